@@ -7,6 +7,7 @@ from .superpose import get_trans_vect, get_rotation_matrix, superpose_selection
 from . import transform
 import os
 import pickle
+import tempfile
 
 
 class StructureSimilarity(object):
@@ -237,14 +238,8 @@ class StructureSimilarity(object):
 
         if save_file:
             if filename is None:
-                f = open(self.ref.split('.')[0] + '.lzone', 'w')
-            else:
-                f = open(filename, 'w')
-            for res in data_test:
-                chain = res[0]
-                num = res[1]
-                f.write('zone %s%d-%s%d\n' % (chain, num, chain, num))
-            f.close()
+                filename = self.ref.split('.')[0] + '.lzone'
+            self._write_zone(filename, data_test)
 
         resData = {}
         for res in data_test:
@@ -369,17 +364,9 @@ class StructureSimilarity(object):
         sql_ref._close()
 
         if save_file:
-
             if filename is None:
-                f = open(self.ref.split('.')[0] + '.izone', 'w')
-            else:
-                f = open(filename, 'w')
-
-            for res in data_test:
-                chain = res[0]
-                num = res[1]
-                f.write('zone %s%d-%s%d\n' % (chain, num, chain, num))
-            f.close()
+                filename = self.ref.split('.')[0] + '.izone'
+            self._write_zone(filename, data_test)
 
         resData = {}
         for res in data_test:
@@ -1082,6 +1069,28 @@ class StructureSimilarity(object):
 
         else:
             return set(data_in_zone)
+
+    @staticmethod
+    def _write_zone(filename, data_test):
+        """Write a zone file.
+
+        The zone is first written to a temporary file in the same directory
+        and then moved in place in one step, so that a computation reading
+        the zone file at the same time never sees a partially written zone.
+
+        Args:
+            filename (str): name of the zone file
+            data_test (list): (chainID, resSeq) of the residues in the zone
+        """
+        dirname, basename = os.path.split(filename)
+        fd, tmpname = tempfile.mkstemp(
+            dir=dirname or '.', prefix=basename + '.', suffix='.tmp')
+        with os.fdopen(fd, 'w') as f:
+            for res in data_test:
+                chain = res[0]
+                num = res[1]
+                f.write('zone %s%d-%s%d\n' % (chain, num, chain, num))
+        os.replace(tmpname, filename)
 
     @staticmethod
     def read_zone(zone_file):
